@@ -202,6 +202,12 @@ def check_audit():
     a, s = WORLD.audit_counts, WORLD.seam_counts
     keys = set(a) | set(s)
     bad = {k: (s.get(k, 0), a.get(k, 0)) for k in keys if s.get(k, 0) != a.get(k, 0)}
+    # a file that is only *read* outside the seams (e.g. by a third-party parser) costs scheduling
+    # points, not soundness: it is counted as a probe; anything that writes, creates, removes or
+    # renames outside the seams stays a harness error
+    if "open_read" in bad and a.get("open_read", 0) > s.get("open_read", 0):
+        WORLD.stat("unseamed_read_opens", a["open_read"] - s.get("open_read", 0))
+        del bad["open_read"]
     if bad:
         return f"file access bypassed the seams (seam,audit): {bad}"
     return None
